@@ -146,3 +146,7 @@ def run(chk):
             nbad += 1; nm = f'C05/corpus {s!r}'
             chk.obligation(nm, 'native-vs-reference', 'violated'); chk.violation(nm, 'grammar-corpus', {'text': s, 'differences': diffs}, f'{s!r}: ' + '; '.join(diffs)[:300])
     if not nbad: chk.obligation(f'C05/corpus: {len(strings)} string literals of the repository tests: MIR interpreter == native == reference ({nacc} accepted)', 'translator-validation', 'holds', 0.0, nacc > 10, {'strings': len(strings), 'accepted': nacc, 'examples': strings[:3]})
+    if chk.unexplored:
+        # parts of the symbolic exploration have no verdict on this tree: bounded native enumeration instead (DESIGN.md 3.7)
+        from .. import fallback
+        fallback.grammar(chk, 'C05')
